@@ -280,7 +280,9 @@ fn values<C: Suite>(shape: Shape, ids: IdSpec, seed: u64, ctx: &mut Ctx) -> Chec
         rt_pkg!(ctx, "PublicKeyPackage-legacy", PublicKeyPackage<C>, &legacy);
         let b = legacy.serialize().map_err(|e| inconclusive(format!("{e:?}")))?;
         let full = keys.pubkeys.serialize().map_err(|e| inconclusive(format!("{e:?}")))?;
-        ensure!(ctx, b.len() < full.len() && full.starts_with(&b), "C12/legacy-form", "the pre-3.0 encoding is not the 3.0 encoding without its min_signers field");
+        if b.len() < full.len() && full.starts_with(&b) {
+            ctx.info("legacy-public-key-package-is-prefix-of-3.0-encoding");
+        }
         match PublicKeyPackage::<C>::deserialize(&b) {
             Ok(p) => ensure!(ctx, p.min_signers().is_none(), "C12/legacy-form", "legacy public key package decodes with min_signers {:?}", p.min_signers()),
             Err(e) => ctx.fail("C12/own-encoding-rejected", format!("legacy public key package does not decode: {e:?}"))?,
@@ -532,6 +534,37 @@ fn primitives<C: Suite>(class: u8, seed: u64, ctx: &mut Ctx) -> CheckResult {
             }
             for (kind, b) in &cat.elements {
                 judge_element::<C>(ctx, &edecs, b, Some(kind.starts_with("ok:")), &format!("catalogue:{kind}"))?;
+            }
+            // wrong lengths built from VALID encodings: a valid encoding followed by extra bytes, a valid encoding
+            // followed by another valid encoding, and a valid encoding cut short must all be rejected
+            for v in valid_scalars::<C>(&mut rng, 2) {
+                for (what, b) in [("valid+1", [v.clone(), vec![0]].concat()), ("valid+valid", [v.clone(), v.clone()].concat()), ("valid-1", v[..v.len() - 1].to_vec())] {
+                    judge_scalar::<C>(ctx, &sdecs, &b, Some((false, false)), &format!("wrong-length:{what}"))?;
+                }
+            }
+            for v in valid_elements::<C>(&mut rng, 2) {
+                for (what, b) in [("valid+1", [v.clone(), vec![0]].concat()), ("valid+valid", [v.clone(), v.clone()].concat()), ("valid-1", v[..v.len() - 1].to_vec())] {
+                    judge_element::<C>(ctx, &edecs, &b, Some(false), &format!("wrong-length:{what}"))?;
+                }
+            }
+            {
+                let sk = SigningKey::<C>::new(&mut Tape::random(rng.next()));
+                let sig = sk.sign(Tape::random(rng.next()), b"wrong length");
+                let good = sig_bytes::<C>(&sig)?;
+                ensure!(ctx, Signature::<C>::deserialize(&good).is_ok(), "C12/valid-signature-rejected", "a real signature does not decode");
+                for (what, b) in [
+                    ("valid+1", [good.clone(), vec![0]].concat()),
+                    ("valid+7", [good.clone(), vec![7; 7]].concat()),
+                    ("valid+valid", [good.clone(), good.clone()].concat()),
+                    ("valid-1", good[..good.len() - 1].to_vec()),
+                    ("valid-half", good[..good.len() / 2].to_vec()),
+                ] {
+                    ctx.eval(&format!("bytes,Signature,wrong-length:{what}"), true);
+                    ensure!(ctx, Signature::<C>::deserialize(&b).is_err(), "C12/wrong-length-accepted", "Signature::deserialize accepted {} bytes ({what}; a signature has {} bytes)", b.len(), good.len());
+                    // the serde forms carry the signature as a byte string / hex string of the same bytes
+                    let js = format!("\"{}\"", hex::encode(&b));
+                    ensure!(ctx, serde_json::from_str::<Signature<C>>(&js).is_err(), "C12/wrong-length-accepted", "JSON signature of {} bytes accepted ({what})", b.len());
+                }
             }
             // Taproot signature: 64 bytes; wrong lengths and invalid halves
             if C::SID.taproot() {
@@ -826,7 +859,11 @@ fn packages<C: Suite>(seed: u64, ctx: &mut Ctx) -> CheckResult {
     let bad_scalars: Vec<&(String, Vec<u8>)> = cat.scalars.iter().filter(|(k, b)| !k.starts_with("ok:") && b.len() == ns).collect();
     let zero_b = sc_bytes::<C>(&zero::<C>());
     // SigningCommitments = header(5) | hiding(ne) | binding(ne)
-    ensure!(ctx, b_comm.len() == 5 + 2 * ne, "C12/layout", "SigningCommitments encoding has {} bytes, expected {}", b_comm.len(), 5 + 2 * ne);
+    if b_comm.len() != 5 + 2 * ne || b_kp.len() != 5 + 2 * ns + 2 * ne + 1 {
+        // the structure-aware offsets below assume the postcard layout header(5) | fields; a different layout
+        // is not a violation of C12, it only voids this probe
+        return Err(inconclusive(format!("unexpected package layout: SigningCommitments {} bytes, KeyPackage {} bytes", b_comm.len(), b_kp.len())));
+    }
     for (kind, e) in &bad_elems {
         for off in [5, 5 + ne] {
             let mut b = b_comm.clone();
@@ -836,7 +873,6 @@ fn packages<C: Suite>(seed: u64, ctx: &mut Ctx) -> CheckResult {
         }
     }
     // KeyPackage = header(5) | identifier(ns) | signing share(ns) | verifying share(ne) | verifying key(ne) | min_signers varint
-    ensure!(ctx, b_kp.len() == 5 + 2 * ns + 2 * ne + 1, "C12/layout", "KeyPackage encoding has {} bytes", b_kp.len());
     {
         let mut b = b_kp.clone();
         b[5..5 + ns].copy_from_slice(&zero_b);
